@@ -324,3 +324,22 @@ Definition skel_admitted (m : nmap) (t : btx) : bool :=
   match b_class t with BAnte => false | _ => nm_get m (b_sender t) =? b_nonce t end.
 Definition skel_block_run : nmap -> list btx -> nmap * list bout :=
   block_run skel_apply skel_admitted (fun m _ => m) (fun m _ _ => m) (fun m t => nm_bump m (b_sender t)).
+
+(* ------------------------------------------------------------------ mempool admission and the check state *)
+
+(* CheckTx / ReCheckTx of an Ethereum transaction, as far as the sender's sequence in the CHECK STATE goes:
+   duallane/12_increment_sequence.go bumps it in the context the ante handler was given; evmlane/993e takes
+   simulationCtx := ctx.CacheContext(), rolls the sequence back THERE, runs the trial execution THERE and drops the
+   branch (trial_exec); what stays in the check state is the bump.  [p] is the trial execution: arbitrary. *)
+Definition seq_of (ctx : kv) (k : key) : N := match ctx k with Some v => v | None => 0 end.
+Definition checktx_admit {R} (ctx : kv) (k : key) (p : prog R) : kv :=
+  let cur := seq_of ctx k in
+  let bumped := kv_over [(k, Some (cur + 1))] ctx in
+  fst (fst (trial_exec bumped [] [(k, Some cur)] p)).
+
+(* the sequences seen in the check state after each of m admitted transactions of one sender *)
+Fixpoint checktx_seqs {R} (m : nat) (ctx : kv) (k : key) (p : prog R) : list N :=
+  match m with
+  | O => []
+  | S m' => let ctx' := checktx_admit ctx k p in seq_of ctx' k :: checktx_seqs m' ctx' k p
+  end.
